@@ -186,6 +186,9 @@ pub(crate) fn calculate_max_input(output_len: usize) -> usize {
 }
 
 fn write_chunk(input: &[u8], input_used: &mut usize, w: &mut Writer, max_chunk: usize) -> bool {
+    #[cfg(feature = "verif-hooks")]
+    crate::verif_hooks::tick("write_chunk");
+
     // TODO(martin): Redo this to  try and calculate a perfect fit of the
     // input into the output.
 
@@ -405,6 +408,9 @@ impl BodyReader {
         let mut output_used = 0;
 
         loop {
+            #[cfg(feature = "verif-hooks")]
+            crate::verif_hooks::tick("read_chunked");
+
             let (i, o) = dechunker.parse_input(&src[input_used..], &mut dst[output_used..])?;
 
             input_used += i;
